@@ -293,7 +293,10 @@ def geometry_eval(doc, lex, data, strict):
                 last = len(line.rstrip(" \t").encode("utf-16-le")) // 2
                 starts = {lx["c0"] for lx in lex[l]} | {first}
                 ends = {lx["c1"] for lx in lex[l]} | {last}
-                ok = c in starts and (c + n) in ends
+                covered = {lx["k"] for lx in lex[l] if c <= lx["c0"] and lx["c1"] <= c + n}
+                # ... and it is the text of a sub-directive, not a stretch of a posting: an operator, an amount or a second
+                # commodity inside it means the tokenizer gave up on the rest of the line
+                ok = c in starts and (c + n) in ends and covered <= {"format", "incpath", "year", "commodity", "number"} and len([1 for lx in lex[l] if lx["k"] == "operator" and c <= lx["c0"] < c + n]) == 0
             if not ok:
                 divs.append(("token-not-a-lexeme:" + TYPE_NAME[ty], "%s token %d:%d-%d covers %r; %s lexemes of that line are at %s on %r" % (
                     TYPE_NAME[ty], l, c, c + n, c08.wcommon.u16len and doc.lines[l].encode("utf-16-le")[2 * c:2 * (c + n)].decode("utf-16-le", "replace"),
@@ -314,9 +317,13 @@ def geometry(run, args):
             seen.add(k)
             cases.append(c)
     for fam, cap in (("headers", 300), ("postings", 300), ("pairs", 150), ("desc-chars", 300), ("lexicon", 250)):
-        cs = [c for c in run.tlc("JournalGen", jcommon.gen_cfg(fam, 6, True), workers=8, timeout=2400).json if not c["trig"]]
+        # the cases that once carried a known parser trigger (a lower-case commodity word before an operator, the special
+        # descriptions) are ordinary journals of G since those repairs: their tokens are judged like all others
+        cs = run.tlc("JournalGen", jcommon.gen_cfg(fam, 6, True), workers=8, timeout=2400).json
+        trig = [c for c in cs if c["trig"]]
+        cs = [c for c in cs if not c["trig"]]
         cs = run.rng.sample(cs, min(len(cs), cap if not thorough else cap * 10))
-        cases += cs
+        cases += cs + trig
     hcs = []
     for i, c in enumerate(cases):
         c["final"] = (i % 2 == 0)          # every other document ends without a line end
